@@ -259,8 +259,8 @@ Proof. intros. apply query_is_scan; assumption. Qed.
 Definition ex_row := add_feature [115] [103] [110] (Some [45]) None (Some false) [(9, 4); (1, 3)].
 Example ex_row_wf : row_wf ex_row /\ r_spans ex_row = [(1, 3); (4, 9)].
 Proof. unfold row_wf. vm_compute. split; reflexivity. Qed.
-Definition ex_q := {| q_biotype := None; q_seqid := Some [115]; q_name := None; q_strand := Some [45];
-  q_attrs := None; q_on_aln := None; q_start := Some 8; q_stop := Some 20; q_partial := true |}.
+Definition ex_q := {| q_biotype := QAny; q_seqid := QOne [115]; q_name := QIn [[110]; [120]]; q_strand := Some [45];
+  q_attrs := None; q_attrs_lit := false; q_on_aln := None; q_start := Some 8; q_stop := Some 20; q_partial := true |}.
 Example ex_q_hits : query_wf ex_q /\ gquery [1] [ex_row] ex_q = [ex_row].
 Proof. split; [vm_compute; reflexivity|vm_compute; reflexivity]. Qed.
 
